@@ -1,7 +1,7 @@
 """C18 — dates convert to PDF date strings and back."""
 import json, os
 import vlib
-from vlib import Check, tlc, run_bin, workdir, write_ndjson, read_ndjson, log
+from vlib import Check, tlc, run_bin, workdir, write_ndjson, read_ndjson
 
 META = {
     "property_id": "C18",
@@ -30,6 +30,8 @@ ASSUMPTIONS = [
     "Domain: UTC instant and local wall-clock date both in years 0001-9999, offset -23:59..+23:59 (minutes).",
     "chrono DateTime<Local> is driven by running each offset in a child process with TZ=XXX<posix offset>; if Local does "
     "not report the requested offset the conversion is skipped (counted as env_skipped), never judged.",
+    "All parsing runs in a child whose zone (UTC+07:17 / UTC-03:11) differs from the offset of every parsed string; a jiff "
+    "parse that fails while jiff cannot look up 'GMT'/'UTC' (no tz database on the machine) is skipped as env_skipped.",
     "A value the backend's own type cannot represent (jiff Timestamp/Zoned after 9999-12-30T22:00:00Z) is skipped (na_skipped).",
     "chrono's parsed DateTime<Local> keeps no offset from the string: only the instant is compared for that backend.",
     "For the minute-precision / date-only forms the statement only says they parse; the check also compares the value "
@@ -98,6 +100,8 @@ def judge_replay(cases, by_case, stats):
                     raise vlib.ToolError("generated literal is not a date in the domain: %s" % b2s(r["in"]))
                 if beyond(r, want):
                     stats["na_skipped"] += 1
+                elif r["st"] == "env":
+                    stats["env_skipped"] += 1
                 elif r["st"] == "panic":
                     out.append((signature("parse-panic", cls), dict(det, panic=r.get("msg"))))
                 elif r["st"] != "ok":
@@ -140,98 +144,126 @@ def run(tier):
     w = workdir("c18")
     thorough = tier != "quick"
     # ---------------------------------------------------------------- (M) + (G)
-    cfg = "MC_Dates_thorough.cfg" if thorough else "MC_Dates_quick.cfg"
-    r = tlc("MC_Dates.tla", cfg, workers=16 if thorough else 4, coverage=True, timeout=3000,
-            xmx="8g" if thorough else "4g")
-    vlib.require_coverage(r, ["CalYear", "Pick", "ConvertStep", "StripStep", "Attempt", "Done"])
-    chk.add_tlc(r)
-    gen = r.tagged("REPLAY")
-    if not gen:
-        raise vlib.ToolError("generator produced no cases")
-    # anti-vacuity of the generated set
-    sweep_offs = {}
-    for g in gen:
-        if g["sweep"]:
-            sweep_offs.setdefault((g["day"], g["sod"]), set()).add(g["off"])
-    if not any(len(v) == 2879 for v in sweep_offs.values()):
-        raise vlib.ToolError("vacuous: no instant with all 2879 offsets generated")
-    need = {("negsub", "y4"), ("neg", "y4"), ("possub", "y4"), ("pos", "y4"), ("zero", "y4"), ("neg", "ylt1000"),
-            ("pos", "ylt1000")}
-    have = {tuple(g["cls_off"]) for g in gen}
-    if not need <= have:
-        raise vlib.ToolError("vacuous: generated cases miss classes %s" % sorted(need - have))
-    if not any(b2s(g["str"]).startswith("D:20000229") for g in gen) or \
-       not any(b2s(g["utc"]).startswith("D:00010101") for g in gen) or \
-       not any(b2s(g["utc"]).startswith("D:99991231") for g in gen):
-        raise vlib.ToolError("vacuous: leap day / first / last day missing from the generated cases")
-    # the repaired design (time backend with all forms) has no counter-example: the deviation switch is the only one
+    stats = new_stats()
+    neg_rejected = 0
+    total_local = 0
+    # quick cfg: with TLC's action coverage (anti-vacuity); thorough cfg: the larger case set (same actions), then
+    # the repaired design (time backend with every form) must have no counter-example without the deviation switch
+    runs = [("MC_Dates_quick.cfg", True)] + ([("MC_Dates_thorough.cfg", False)] if thorough else [])
+    for cfg, cov in runs:
+        r = tlc("MC_Dates.tla", cfg, workers=16 if thorough else 4, coverage=cov, timeout=3000,
+                xmx="8g" if thorough else "4g")
+        if cov:
+            vlib.require_coverage(r, ["CalYear", "Pick", "ConvertStep", "StripStep", "Attempt", "Done"])
+        chk.add_tlc(r)
+        gen = r.tagged("REPLAY")
+        if not gen:
+            raise vlib.ToolError("generator produced no cases")
+        for g in gen:
+            g["str"], g["utc"] = g["lits"][0]["s"], g["lits"][2]["s"]
+            if g["lits"][0]["cls"][0] != "full" or g["lits"][2]["cls"][0] != "fullZ":
+                raise vlib.ToolError("unexpected literal order in REPLAY record")
+        # anti-vacuity of the generated set
+        sweep_offs = {}
+        for g in gen:
+            if g["sweep"]:
+                sweep_offs.setdefault((g["day"], g["sod"]), set()).add(g["off"])
+        if not any(len(v) == 2879 for v in sweep_offs.values()):
+            raise vlib.ToolError("vacuous: no instant with all 2879 offsets generated")
+        need = {("negsub", "y4"), ("neg", "y4"), ("possub", "y4"), ("pos", "y4"), ("zero", "y4"), ("neg", "ylt1000"),
+                ("pos", "ylt1000")}
+        have = {tuple(g["cls_off"]) for g in gen}
+        if not need <= have:
+            raise vlib.ToolError("vacuous: generated cases miss classes %s" % sorted(need - have))
+        if not any(b2s(g["str"]).startswith("D:20000229") for g in gen) or \
+           not any(b2s(g["utc"]).startswith("D:00010101") for g in gen) or \
+           not any(b2s(g["utc"]).startswith("D:99991231") for g in gen):
+            raise vlib.ToolError("vacuous: leap day / first / last day missing from the generated cases")
+        cin, cout = os.path.join(w, "gen.ndjson"), os.path.join(w, "gen.out.ndjson")
+        write_ndjson(cin, to_cases(gen))
+        run_bin("c18", ["replay", "--in", cin, "--out", cout])
+        by_case = group(read_ndjson(cout))
+        for sig, det in judge_replay(gen, by_case, stats):
+            chk.violation(sig, det)
+        for g in gen:
+            chk.case((g["day"], g["sod"], g["off"]))
+        chk.traces += len(gen)
+        total_local += sum(1 for rs in by_case.values() for x in rs if x["ev"] == "fmt" and x["b"] == "chrono_local")
+        chk.extra["replayed_behaviours"] = chk.extra.get("replayed_behaviours", 0) + len(gen)
+        if cov:
+            mid = gen[len(gen) // 2]
+            chk.sample({"generated_case": {"day": mid["day"], "sod": mid["sod"], "off_minutes": mid["off"]},
+                        "spec_string": b2s(mid["str"]), "spec_utc_string": b2s(mid["utc"]),
+                        "lopdf": {x["b"]: b2s(x["s"]) for x in by_case[len(gen) // 2]
+                                  if x["ev"] == "fmt" and x["st"] == "ok"}})
+            # (B) replay-side negative control: a corrupted expected string must be reported
+            bad = json.loads(json.dumps(gen[0]))
+            bad["str"][16] = 45 if bad["str"][16] == 43 else 43
+            nb = judge_replay([bad], {0: by_case[0]}, new_stats())
+            neg_rejected = 1 if any(s.startswith("C18:fmt-mismatch") for s, _ in nb) else 0
+            if not neg_rejected:
+                raise vlib.ToolError("replay negative control not rejected")
+    chk.exhaustive = True
     if thorough:
         rr = tlc("MC_Dates.tla", "MC_Dates_repaired.cfg", workers=16, timeout=3000, name="MC_Dates_repaired")
         chk.add_tlc(rr)
-    cin, cout = os.path.join(w, "gen.ndjson"), os.path.join(w, "gen.out.ndjson")
-    write_ndjson(cin, to_cases(gen))
-    run_bin("c18", ["replay", "--in", cin, "--out", cout])
-    by_case = group(read_ndjson(cout))
-    stats = new_stats()
-    for sig, det in judge_replay(gen, by_case, stats):
-        chk.violation(sig, det)
-    for g in gen:
-        chk.case((g["day"], g["sod"], g["off"]))
-    chk.traces += len(gen)
-    chk.exhaustive = True
-    mid = gen[len(gen) // 2]
-    chk.sample({"generated_case": {"day": mid["day"], "sod": mid["sod"], "off_minutes": mid["off"]},
-                "spec_string": b2s(mid["str"]), "spec_utc_string": b2s(mid["utc"]),
-                "lopdf": {x["b"]: b2s(x["s"]) for x in by_case[len(gen) // 2] if x["ev"] == "fmt" and x["st"] == "ok"}})
-    # (B) replay-side negative control: a corrupted expected string must be reported
-    bad = json.loads(json.dumps(gen[0]))
-    bad["str"][16] = 45 if bad["str"][16] == 43 else 43
-    nb = judge_replay([bad], {0: by_case[0]}, new_stats())
-    neg_rejected = 1 if any(s.startswith("C18:fmt-mismatch") for s, _ in nb) else 0
-    if not neg_rejected:
-        raise vlib.ToolError("replay negative control not rejected")
     # ---------------------------------------------------------------- (V)
     n = 4000 if thorough else 300
     tr = os.path.join(w, "trace.ndjson")
     run_bin("c18", ["record", "--seed", vlib.seed(), "--n", n, "--out", tr])
     recs = read_ndjson(tr)
-    validate(chk, tr, recs, stats)
-    # (B) negative controls for the trace validator
-    neg = []
-    f = next(x for x in recs if x["ev"] == "fmt" and x["st"] == "ok" and x["b"] == "time_odt")
-    f = json.loads(json.dumps(f))
-    f["s"][16] = 45 if f["s"][16] == 43 else 43            # flip the offset sign
-    neg.append((f, "fmt-mismatch"))
-    p = next(x for x in recs if x["ev"] == "parse" and x["st"] == "ok" and x["p"] == "chrono" and x["sod"] < 86399)
-    p = json.loads(json.dumps(p))
-    p["sod"] += 1                                           # one second off
-    neg.append((p, "parse-instant"))
-    q = next(x for x in recs if x["ev"] == "parse" and x["st"] == "ok" and x["hasoff"] and x["p"] == "jiff")
-    q = json.loads(json.dumps(q))
-    q["off"] += 1                                           # one minute of offset off
-    neg.append((q, "parse-offset"))
-    ntr = os.path.join(w, "neg.ndjson")
-    write_ndjson(ntr, [x for x, _ in neg])
-    rn = tlc("Trace_Dates.tla", "Trace_Dates.cfg", workers=1, env={"TRACE": ntr}, deque=True, name="c18neg")
-    vs = rn.tagged("VERDICT")
-    if len(vs) != len(neg) or any(v["v"] != want for v, (_, want) in zip(vs, neg)):
-        raise vlib.ToolError("negative control was not rejected by Trace_Dates: %s" % vs)
-    chk.extra["negative_controls_rejected"] = neg_rejected + len(neg)
+    okrecs = validate(chk, tr, recs, stats)
+    nneg = 0
+    vac = list(stats.pop("vacuity", []))
+    try:
+        # (B) negative controls for the trace validator: corrupt one field of records it accepted
+        neg = []
+        pick = lambda cond, what: next((x for x in okrecs if cond(x)), None) or _no_control(what)
+        f = pick(lambda x: x["ev"] == "fmt" and x["st"] == "ok" and x["b"] in ("time_odt", "jiff_zoned", "chrono_local"),
+                 "accepted conversion with an offset")
+        f = json.loads(json.dumps(f))
+        f["s"][16] = 45 if f["s"][16] == 43 else 43            # flip the offset sign
+        neg.append((f, "fmt-mismatch"))
+        p = pick(lambda x: x["ev"] == "parse" and x["st"] == "ok" and x["sod"] < 86399, "accepted parse")
+        p = json.loads(json.dumps(p))
+        p["sod"] += 1                                           # one second off
+        neg.append((p, "parse-instant"))
+        q = pick(lambda x: x["ev"] == "parse" and x["st"] == "ok" and x["hasoff"], "accepted parse that keeps the offset")
+        q = json.loads(json.dumps(q))
+        q["off"] += 1                                           # one minute of offset off
+        neg.append((q, "parse-offset"))
+        ntr = os.path.join(w, "neg.ndjson")
+        write_ndjson(ntr, [x for x, _ in neg])
+        rn = tlc("Trace_Dates.tla", "Trace_Dates.cfg", workers=1, env={"TRACE": ntr}, deque=True, name="c18neg")
+        vs = rn.tagged("VERDICT")
+        if len(vs) != len(neg) or any(v["v"] != want for v, (_, want) in zip(vs, neg)):
+            raise vlib.ToolError("negative control was not rejected by Trace_Dates: %s" % vs)
+        nneg = len(neg)
+    except vlib.ToolError as e:
+        vac.append(str(e))
+    chk.extra["negative_controls_rejected"] = neg_rejected + nneg
     # ---------------------------------------------------------------- bookkeeping
-    total_local = sum(1 for rs in by_case.values() for x in rs if x["ev"] == "fmt" and x["b"] == "chrono_local")
     total_local += sum(1 for x in recs if x["ev"] == "fmt" and x["b"] == "chrono_local")
     if stats["env_skipped"] * 20 > total_local:
-        raise vlib.ToolError("chrono Local could not be driven through TZ for %d of %d conversions" % (
+        vac.append("chrono Local could not be driven through TZ for %d of %d conversions" % (
             stats["env_skipped"], total_local))
     pairs = stats.pop("pairs")
     want_pairs = {(s, p) for s in ("chrono_local", "chrono_utc", "jiff_zoned", "jiff_timestamp", "time_odt")
                   for p in ("chrono", "jiff")} | {(s, "time") for s in ("chrono_local", "jiff_zoned", "time_odt")}
     if not want_pairs <= pairs:
-        raise vlib.ToolError("vacuous: backend pairs never agreed: %s" % sorted(want_pairs - pairs))
+        vac.append("vacuous: backend pairs never agreed: %s" % sorted(want_pairs - pairs))
+    # vacuity is a tool error — unless lopdf's own (reported) misbehaviour is what emptied the classes
+    if vac and not chk.violations:
+        raise vlib.ToolError("; ".join(vac))
+    if vac:
+        chk.extra["vacuity_notes"] = vac
     chk.extra.update(stats)
-    chk.extra["replayed_behaviours"] = len(gen)
     chk.extra["backend_pairs_ok"] = len(pairs)
     return chk.finish()
+
+
+def _no_control(what):
+    raise vlib.ToolError("no record suitable for the negative control (%s)" % what)
 
 
 def validate(chk, tr, recs, stats):
@@ -243,11 +275,13 @@ def validate(chk, tr, recs, stats):
         raise vlib.ToolError("trace validator judged %d of %d records" % (len(verdicts), len(recs)))
     seen_cls = set()
     okc = 0
+    okrecs = []
     for v in verdicts:
         rec = recs[v["i"] - 1]
         kind = v["v"]
         if rec["ev"] == "fmt":
-            chk.case((rec["day"], rec["sod"], rec["off"]))
+            if rec["b"] == "chrono_local":
+                chk.case((rec["day"], rec["sod"], rec["off"]))
             seen_cls.add(tuple(v["cls"][1:]))
         if kind == "spec-inconsistent":
             raise vlib.ToolError("Dates disagrees with itself on %s" % json.dumps(rec))
@@ -262,6 +296,8 @@ def validate(chk, tr, recs, stats):
                 stats["env_skipped"] += 1
             elif kind == "ok" and rec["ev"] == "parse":
                 stats["pairs"].update((s, rec["p"]) for s in rec["srcs"])
+            if kind == "ok":
+                okrecs.append(rec)
             continue
         det = {k: rec[k] for k in rec if k not in ("s", "in", "hi_day", "hi_sod")}
         if "s" in rec:
@@ -272,12 +308,16 @@ def validate(chk, tr, recs, stats):
     need = {("negsub", "y4"), ("neg", "y4"), ("pos", "y4"), ("zero", "y4"), ("neg", "ylt1000"), ("pos", "ylt1000"),
             ("utc", "y4"), ("utc", "ylt1000")}
     if not need <= seen_cls:
-        raise vlib.ToolError("vacuous trace set: classes never recorded: %s" % sorted(need - seen_cls))
+        stats.setdefault("vacuity", []).append("vacuous trace set: classes never recorded: %s" % sorted(need - seen_cls))
     if okc < len(recs) // 2:
-        raise vlib.ToolError("vacuous trace set: only %d of %d records acceptable" % (okc, len(recs)))
-    s = next(x for x in recs if x["ev"] == "fmt" and x["st"] == "ok" and x["off"] < 0)
+        stats.setdefault("vacuity", []).append("vacuous trace set: only %d of %d records acceptable" % (okc, len(recs)))
+    s = next((x for x in okrecs if x["ev"] == "fmt" and x["off"] < 0), None)
+    if s is None:
+        return okrecs
     chk.sample({"recorded_call": "Object::from(%s)" % s["b"], "day": s["day"], "sod": s["sod"], "off_minutes": s["off"],
                 "lopdf_string": b2s(s["s"])})
-    p = next(x for x in recs if x["ev"] == "parse" and x["st"] == "ok" and x["p"] == "time")
-    chk.sample({"recorded_call": "as_datetime().try_into::<time::OffsetDateTime>()", "input": b2s(p["in"]),
-                "produced_by": p["srcs"], "parsed": {"day": p["day"], "sod": p["sod"], "off_minutes": p["off"]}})
+    p = next((x for x in okrecs if x["ev"] == "parse" and x["p"] == "time"), None)
+    if p is not None:
+        chk.sample({"recorded_call": "as_datetime().try_into::<time::OffsetDateTime>()", "input": b2s(p["in"]),
+                    "produced_by": p["srcs"], "parsed": {"day": p["day"], "sod": p["sod"], "off_minutes": p["off"]}})
+    return okrecs
